@@ -623,15 +623,15 @@ func EventKey(e sim.Event) string {
 
 // StepObs is what was observed around one op of a drift history.
 type StepObs struct {
-	I       int
-	Step    Step
-	Agent   string
-	S0, S1  map[string]string // store snapshots before (after the drift edits) and after the op
-	L0, L1  []env.Rec         // raw ledgers of the release before and after
-	Res     env.OpResult
-	Events  []sim.Event // done-events of the op's agent, in order
-	Reject  bool        // the server rejected a request of the op (injected fault)
-	Scripted bool       // the scripted waiter failed a wait / hook watch of the op
+	I        int
+	Step     Step
+	Agent    string
+	S0, S1   map[string]string // store snapshots before (after the drift edits) and after the op
+	L0, L1   []env.Rec         // raw ledgers of the release before and after
+	Res      env.OpResult
+	Events   []sim.Event // done-events of the op's agent, in order
+	Reject   bool        // the server rejected a request of the op (injected fault)
+	Scripted bool        // the scripted waiter failed a wait / hook watch of the op
 	// Drifted: store key -> drift kinds applied to that object since the last op that succeeded
 	Drifted map[string][]string
 	// DriftsNow: drift kinds applied right before this op
